@@ -629,6 +629,7 @@ func streamParse3(seed uint64, thorough bool) {
 			emitParse3(w, b, []byte{1}, []byte{2})
 		}
 	}
+	emit("sentinels", L(), sentinelState())
 }
 
 // ---------- responses ----------
@@ -1244,6 +1245,7 @@ func streamClassify(seed uint64, thorough bool) {
 		b := r.bytes(n)
 		emit("classify", L(B(b), Bool(false)), classify(b, false))
 	}
+	emit("sentinels", L(), sentinelState())
 }
 
 // rebuildTCP returns a TCP constructor case with the same kind of arguments
